@@ -186,6 +186,13 @@ def _job(job):
                                              - float(np.linalg.norm(np.array(f["ref"][0]) - np.array(f["ref"][1])))) / 2
                 except Exception:
                     pass
+        # an atom made from another added atom (the carboxylic-acid optimiser turns the hydrogen that add_hydrogens built about
+        # the C-O bond and keeps the copy under the original name) inherits the residual of that atom's superposition
+        fit_by_name = {}
+        for e in tr.events:
+            if e.get("e") == "new" and e["a"] in fitres:
+                key_ = (e["res"].split(" ", 1)[1] if " " in e["res"] else e["res"], e["name"])
+                fit_by_name[key_] = max(fit_by_name.get(key_, 0.0), fitres[e["a"]])
         # ---- geometry of every added atom of the final model
         # (the "...FLIP" atoms of a flippable amide / ring are rotated copies of input atoms: moves, judged by C04)
         added_ids = set(e["a"] for e in tr.events if e.get("e") == "new" and e.get("stage") not in ("SetupMolecule", "")
@@ -235,6 +242,11 @@ def _job(job):
                     elif len(shell) == 2:
                         misfit = max(misfit, abs(float(np.linalg.norm(pos[shell[0]] - pos[shell[1]])) - float(np.linalg.norm(tpl[shell[0]] - tpl[shell[1]]))) / 2)
                 misfit = max(misfit, fitres.get(ids.get(id(a)), 0.0))
+                if ids.get(id(a)) not in fitres:
+                    rk_ = str(res).split(" ", 1)[1] if " " in str(res) else str(res)
+                    misfit = max([misfit] + [v for (rk2, nm2), v in fit_by_name.items()
+                                             if rk2 == rk_ and len(min(nm2, a.name, key=len)) >= 2 and abs(len(nm2) - len(a.name)) <= 1
+                                             and (nm2.startswith(a.name) or a.name.startswith(nm2))])
                 # "does not coincide with another atom of its residue": measured against the atoms whose distance from this
                 # one is fixed by the template up to one torsion (within three bonds).  Two atoms further apart in the bond
                 # graph meet only where the input conformation folds the residue on to itself (a distortion of the input,
